@@ -372,9 +372,10 @@ async fn run(name: &str) -> Result<(), String> {
                 for r in &reach { for n in [".gitignore", ".ignore"] { let f = r.join(n); if f.is_file() && std::fs::metadata(&f).unwrap().len() > 0 { want.insert((f.strip_prefix(&root).unwrap().to_owned(), r.strip_prefix(&root).unwrap().to_owned())); } } }
                 // with explicit watch paths: only directories beneath a watched path, or above one, are searched
                 if configs % 5 == 1 {
-                    for watches in [vec![root.join("a/b")], vec![root.join("x"), root.join("a/b/c")]] {
+                    // (the third list names only paths OUTSIDE the origin: no directory of the walk is related to it, not even the origin)
+                    for watches in [vec![root.join("a/b")], vec![root.join("x"), root.join("a/b/c")], vec![root.with_file_name("vx-outside-a"), root.with_file_name("vx-outside-b").join("deep")]] {
                         let related = |p: &Path| watches.iter().any(|w| p.starts_with(w) || w.starts_with(p));
-                        let mut reach_w: Vec<PathBuf> = vec![root.clone()];
+                        let mut reach_w: Vec<PathBuf> = if related(&root) { vec![root.clone()] } else { vec![] };
                         for d in dirs { let p = root.join(d); if reach_w.iter().any(|r| Some(r.as_path()) == p.parent()) && !ignored_dir(&p) && related(&p) { reach_w.push(p); } }
                         let mut want_w: BTreeSet<(PathBuf, PathBuf)> = BTreeSet::new();
                         for r in &reach_w { for n in [".gitignore", ".ignore"] { let f = r.join(n); if f.is_file() && std::fs::metadata(&f).unwrap().len() > 0 { want_w.insert((f.strip_prefix(&root).unwrap().to_owned(), r.strip_prefix(&root).unwrap().to_owned())); } } }
@@ -384,7 +385,7 @@ async fn run(name: &str) -> Result<(), String> {
                         let got_w: BTreeSet<(PathBuf, PathBuf)> = files.iter().map(|f| (f.path.strip_prefix(&root).unwrap_or(&f.path).to_owned(), f.applies_in.as_ref().map(|a| a.strip_prefix(&root).unwrap_or(a).to_owned()).unwrap_or_default())).collect();
                         if got_w != want_w {
                             return Err(format!("ignore files {:?}, explicit watches {:?}: discovery returned (file, applies in) with unexpected {:?} and missing {:?}", gitignores.iter().map(|(d, c)| (d.strip_prefix(&root).unwrap().join(".gitignore"), c.as_str())).collect::<Vec<_>>(),
-                                watches.iter().map(|w| w.strip_prefix(&root).unwrap()).collect::<Vec<_>>(), got_w.difference(&want_w).collect::<Vec<_>>(), want_w.difference(&got_w).collect::<Vec<_>>()));
+                                watches.iter().map(|w| w.strip_prefix(&root).unwrap_or(w)).collect::<Vec<_>>(), got_w.difference(&want_w).collect::<Vec<_>>(), want_w.difference(&got_w).collect::<Vec<_>>()));
                         }
                     }
                 }
